@@ -194,7 +194,7 @@ func runPath(p *Program, pkg *ssa.Package, fn *ssa.Function, params map[string]i
 	m := &Machine{
 		prog: p, ctx: newCtx(), solver: solver, bind: map[*Term]*Term{}, prefix: prefix,
 		budget: opts.Budget, globals: map[*ssa.Global]*value{}, params: params, occ: map[string]int{},
-		choices: map[string]int64{}, harness: fn.Name(), wantModel: wantModel, simpMemo: map[*Term]*Term{},
+		choices: map[string]int64{}, harness: fn.Name(), wantModel: wantModel, simpMemo: map[*Term]*Term{}, bounds: map[*Term][2]int64{},
 	}
 	res = &PathResult{AssertReach: map[string]int{}, Funcs: map[*ssa.Function]struct{}{}}
 	m.res = res
